@@ -37,4 +37,47 @@ theorem C19_status_documented (w : Wit.Cfg) (h : HCfg) (store : Wit.Store) (allo
 theorem C19_readLine_progress (s line rest : Bytes) (h : readLine s = some (line, rest)) :
     rest.length < s.length := readLine_shorter s line rest h
 
+
+/-! ### `tlog.maxpow2`, the loop behind the hang of the SumDB/Pixel feeders (finding F5)
+
+```go
+func maxpow2(n int64) (k int64, l int) { l = 0; for 1<<uint(l+1) < n { l++ }; return 1 << uint(l), l }
+```
+`1<<uint(l+1)` is an int64: 2^(l+1) up to l+1 = 62, -2^63 for l+1 = 63, 0 from 64 on. -/
+
+/-- `int64(1) << k` -/
+def shl1 (k : Nat) : Int := if k < 63 then ((2 ^ k : Nat) : Int) else if k = 63 then -9223372036854775808 else 0
+
+/-- the loop continues from `l` iff `1<<(l+1) < n` -/
+def continues (n : Int) (l : Nat) : Bool := decide (shl1 (l + 1) < n)
+
+/-- for a size above 2^62 (= 4611686018427387904) the loop condition holds at every `l`: the loop never
+    exits (and never looks at a context): this is why such sizes have to be refused before
+    `tlog.ProveTree` is called -/
+theorem maxpow2_diverges (n : Int) (h : 4611686018427387904 < n) : ∀ l, continues n l = true := by
+  intro l
+  unfold continues shl1
+  simp only [decide_eq_true_eq]
+  by_cases h1 : l + 1 < 63
+  · rw [if_pos h1]
+    have hp : 2 ^ (l + 1) ≤ 2 ^ 62 := Nat.pow_le_pow_right (by decide) (by omega)
+    have h62 : (2 : Nat) ^ 62 = 4611686018427387904 := by decide
+    rw [h62] at hp
+    omega
+  · rw [if_neg h1]
+    by_cases h2 : l + 1 = 63
+    · rw [if_pos h2]; omega
+    · rw [if_neg h2]; omega
+
+/-- for sizes up to 2^62 — all that the fixed feeders pass on — the loop exits at some `l ≤ 61` -/
+theorem maxpow2_terminates (n : Int) (h : n ≤ 4611686018427387904) : ∃ l, l ≤ 61 ∧ continues n l = false := by
+  refine ⟨61, Nat.le_refl _, ?_⟩
+  unfold continues shl1
+  simp only [decide_eq_false_iff_not]
+  have : (61 + 1 < 63) := by decide
+  rw [if_pos this]
+  have h62 : (2 : Nat) ^ (61 + 1) = 4611686018427387904 := by decide
+  rw [h62]
+  omega
+
 end C19
